@@ -141,7 +141,7 @@ package oci
 //@   call os.CreateTemp requires [C10:temp-file-outside-blobs] args.dir == s.ingestRoot
 //@   call ensureDir requires [C10:temp-dir-is-ingest-root] args.path == s.ingestRoot
 //@   call os.Chmod requires [C10:chmod-the-ingest-file] args.name == fileName(fp)
-//@   ensures [C05:nil-means-verified] ingestErr == nil ==> matched(content, expected)
+//@   ensures [C05,C10:nil-means-verified] ingestErr == nil ==> matched(content, expected)
 //@   ensures [C10:ingest-file-in-ingest-root] ingestErr == nil ==> tempIn(path, s.ingestRoot) && fileMode(path) == 292
 //@   ensures [monotone] forall r io.Reader, d ocispec.Descriptor :: old(matched(r, d)) ==> matched(r, d)
 //@   modifies alloc, ghost.matched, ghost.atEOF, ghost.digestOK, ghost.delivered, new ghost.descOf, new ghost.srcOf, ghost.fileMode, ghost.closedRC, elems[byte], elems[any], elems[string], io.LimitedReader.N, new io.LimitedReader.R, content.VerifyReader.err, new content.VerifyReader.base, new content.VerifyReader.verifier, new content.VerifyReader.verified
